@@ -10,8 +10,8 @@ buffered token has been given a location; the result is False exactly when the
 input was at its end before anything was read.
 
 The script alphabet: a literal, a NAME starting with '_', another NAME, a
-NEWLINE, a backslash token, a plain line comment, a run of blanks, any other token; sequences up to length 5 followed
-by the end of input, started with an empty buffer and with a buffer that
+NEWLINE, a backslash token, a plain line comment, a run of blanks, any other token; sequences up to length 4 (quick) or 5 (thorough; the longest ones over the core alphabet
+without the comment and the blank) followed by the end of input, started with an empty buffer and with a buffer that
 already ends in a backslash token.  Nothing of the package is imported."""
 from __future__ import annotations
 
@@ -111,7 +111,10 @@ def verdicts(lex: Module, udl_start: set, max_len: int = 4, qual: str = "LexerTo
     out: List[FillVerdict] = []
     for prior_s in ("", "\\"):
         for n in range(0, max_len + 1):
-            for seq in itertools.product(ALPHA, repeat=n):
+            # the longest scripts use the core alphabet only (the comment and the blank were added for effects that show
+            # within three tokens: a rewritten comment, a blank in front of a suffix or between two literals)
+            alpha_n = ALPHA if n < max_len or max_len <= 3 else [k_ for k_ in ALPHA if k_ not in ("C", "W")]
+            for seq in itertools.product(alpha_n, repeat=n):
                 s = "".join(seq)
                 # a script is one line (plus what follows a spliced line end); stop enumerating past the first real line end
                 raw = [ALPHA[c] for c in seq]
